@@ -7,6 +7,7 @@ import NixModel.Lemmas.C12Extend
 import NixModel.Lemmas.C12VecWrite
 import NixModel.Lemmas.C12Order
 import NixModel.Generated.MutatorOrder
+import NixModel.Props.C12Links
 
 /-!
 # C12 — a refused operation leaves the file exactly as it was
